@@ -55,6 +55,7 @@ var atoms = []atom{
 // the reduced atom set of the extended quick-tier level.
 var reducedAtoms = []atom{
 	{"a", symA, true},
+	{"ab", symA | symB, false},
 	{"bc", symB | symC, false},
 	{".", symNL | symFF, true},
 	{`\A`, symNL, true},
@@ -76,6 +77,7 @@ var quants = []string{"?", "*", "+", "{2}"}
 
 type generator struct {
 	atoms []atom
+	abc   bool // the atom set contains "abc": the sequence "a" "bc" is left out (same printed form)
 	f     [][]ex // factors by size
 	bp    [][]ex // sequences of >=1 factors by size (including lone alternation groups)
 	alt   [][]ex // bare alternations (>=2 branches) by size
@@ -95,6 +97,11 @@ func (g *generator) exprs(n int, emit func(ex)) {
 // build materialises all lists up to size n.
 func newGenerator(at []atom, n int) *generator {
 	g := &generator{atoms: at, f: make([][]ex, n+1), bp: make([][]ex, n+1), alt: make([][]ex, n+1)}
+	for _, a := range at {
+		if a.s == "abc" {
+			g.abc = true
+		}
+	}
 	for k := 1; k <= n; k++ {
 		g.level(k, func(e ex) { g.f[k] = append(g.f[k], e) }, func(e ex) { g.bp[k] = append(g.bp[k], e) }, func(e ex) { g.alt[k] = append(g.alt[k], e) })
 	}
@@ -155,7 +162,7 @@ func (g *generator) level(k int, emitF, emitB, emitA func(ex)) {
 	for i := 1; i < k; i++ {
 		for _, f := range g.f[i] {
 			for _, r := range g.bp[k-i] {
-				if f.isA && r.lead == 1 {
+				if g.abc && f.isA && r.lead == 1 {
 					continue // "a"+"bc" prints like the atom "abc"
 				}
 				emitB(ex{s: f.s + r.s, syms: f.syms | r.syms, lead: f.lead})
